@@ -42,7 +42,7 @@ def denominators(prop, tier, seed, a):
                 continue
             groups = denom.groups_for(w, tier, seed)
             t = {'ll': llpath, 'meta': w, 'cfg': cfg.name, 'prop': prop, 'budget': budget, 'known': kf, 'ir_hash': h, 'also': [],
-                 'handler': 'avelverif.denom.solve_task', 'groups': groups, 'tier': tier, 'soft_s': 150 if tier == 'quick' else 2400}
+                 'handler': 'avelverif.denom.solve_task', 'groups': groups, 'tier': tier, 'soft_s': 45 if tier == 'quick' else 2400}
             dedup[key] = t
             tasks.append(t)
     print('[%s %s] %d configurations, %d wrappers x divisor lattices to decide (%d identical-IR duplicates folded), %d dropped at compile time'
@@ -218,7 +218,7 @@ def prefetch_task(task):
                 rec = {'kind': cat, 'desc': info, 'inputs': ['n=%d' % nn, 'p at page offset %d' % po], 'rm': 'RNE', 'replay': sh, 'confirmed': confirmed,
                        'detail': details, 'solver': by}
                 if confirmed:
-                    ent = known.match(task.get('known', []), task['prop'], meta, cfg, cat)
+                    ent = known.match(task.get('known', []), task['prop'], meta, cfg, cat, info)
                     if ent is None:
                         res['violations'].append(rec)
                     else:
@@ -500,7 +500,7 @@ def alloc_task(task):
                     m = m2
                 rec = alloc_replay(task, meta, cfg, cat, info, m, by)
                 if rec['confirmed']:
-                    ent = known.match(task.get('known', []), task['prop'], meta, cfg, cat)
+                    ent = known.match(task.get('known', []), task['prop'], meta, cfg, cat, info)
                     if ent is None:
                         res['violations'].append(rec)
                     else:
